@@ -57,7 +57,9 @@ def risk_spec(draw, hedge=False):
     w = {k: round(r / float(sum(raw)) * (1 if draw(st.integers(0, 3)) else -1), 4) for k, r in zip(assets, raw)}
     nested = draw(st.integers(0, 2)) == 0 and not hedge
     hist = draw(st.integers(0, 2))
-    ur = [["UpdateRisk", {"measure": m, "history": hist}] for m in measures]
+    # each measure may ask for its own history depth
+    hists = {m: (hist if draw(st.booleans()) else draw(st.integers(0, 2))) for m in measures}
+    ur = [["UpdateRisk", {"measure": m, "history": hists[m]}] for m in measures]
     spec = {
         "dates": ds,
         "prices": pr,
@@ -70,6 +72,7 @@ def risk_spec(draw, hedge=False):
         "measures": measures,
         "mult": mult,
         "history": hist,
+        "histories": hists,
     }
     kids = [{"sec": t, "mult": mult[t]} for t in tickers]
     if hedge:
@@ -133,14 +136,15 @@ def check_risk_tree(bt, spec, node, i, depth, now):
                 "%s risk[%s] on %s is %r, expected %r (%s)" % (node.full_name, m, now, got, out[m], "unit %r x position %r x multiplier %r" % (unit_at(spec, m, node.name, i), node.position, node.multiplier) if isinstance(node, bt.core.SecurityBase) else "sum over children"),
                 signature="c20:risk:" + ("security" if isinstance(node, bt.core.SecurityBase) else "strategy"),
             )
-        if depth < spec["history"]:
+        hdepth = spec.get("histories", {}).get(m, spec["history"])
+        if depth < hdepth:
             if not hasattr(node, "risks") or m not in node.risks.columns:
-                raise Violation("%s at depth %d has no risks history for %s (history=%d)" % (node.full_name, depth, m, spec["history"]), signature="c20:history-missing")
+                raise Violation("%s at depth %d has no risks history for %s (history=%d)" % (node.full_name, depth, m, hdepth), signature="c20:history-missing")
             h = node.risks.loc[now, m]
             if not (abs(h - out[m]) <= 1e-9 * max(1.0, abs(out[m]))):
                 raise Violation("%s risks[%s] row of %s is %r, expected %r" % (node.full_name, m, now, h, out[m]), signature="c20:history-row")
         elif hasattr(node, "risks") and m in getattr(node, "risks").columns and not np.isnan(node.risks.loc[now, m]):
-            raise Violation("%s at depth %d records a risks history although history=%d" % (node.full_name, depth, spec["history"]), signature="c20:history-depth")
+            raise Violation("%s at depth %d records a risks history for %s although history=%d" % (node.full_name, depth, m, hdepth), signature="c20:history-depth")
     return out
 
 
@@ -177,7 +181,7 @@ def case_risk(ctx, spec):
             holder["hedged"] += 1
 
     interp.Probe.registry["c20risk"] = cb
-    base = {k: v for k, v in spec.items() if k not in ("measures", "mult", "history", "hedge", "nested")}
+    base = {k: v for k, v in spec.items() if k not in ("measures", "mult", "history", "histories", "hedge", "nested")}
     try:
         b = interp.mk_backtest(bt, base)
         holder["root"] = b.strategy
@@ -194,7 +198,7 @@ def case_risk(ctx, spec):
         interp.Probe.registry.pop("c20risk", None)
     if holder["n"] == 0:
         raise Discard("probe never reached")
-    labs = ["hedge" if spec.get("hedge") else "risk"] + (["nested"] if spec.get("nested") else []) + ["history=%d" % spec["history"]]
+    labs = ["hedge" if spec.get("hedge") else "risk"] + (["nested"] if spec.get("nested") else []) + ["history=%d" % spec["history"]] + (["mixed_history_depths"] if len(set(spec.get("histories", {}).values())) > 1 else [])
     nt = holder["hedged"] > 0 if spec.get("hedge") else holder["nz"] >= 2
     return {"nontrivial": nt, "labels": labs}
 
@@ -301,7 +305,9 @@ def roll_spec(draw):
 
     rolls = {}
     for t in sources:
-        tg = draw(st.sampled_from([x for x in tickers if x != t and x not in sources] or [tickers[-1]]))
+        # targets may themselves be sources (chains a -> b -> c), but no cycles: only roll "forward" in ticker order
+        later = [x for x in tickers if x > t]
+        tg = draw(st.sampled_from(later or [tickers[-1]]))
         k = draw(st.integers(0, n))
         d = ds[k][:10] if k < n else (dt.datetime.fromisoformat(ds[-1]) + dt.timedelta(days=5)).strftime("%Y-%m-%d")
         rolls[t] = {"date": d, "target": tg, "factor": draw(st.sampled_from([1.0, 1.0, 0.5, 2.0, 1.25]))}
@@ -309,7 +315,7 @@ def roll_spec(draw):
     raw = [draw(st.integers(1, 5)) for _ in held]
     w = {k: round(r / float(sum(raw)) * 0.8, 4) for k, r in zip(held, raw)}
     # either buy once, or keep rebalancing (so a rolled source is bought again and must not be rolled a second time)
-    stack = [["RollPositionsAfterDates", {"frame": "rolls"}], ["Probe", {"key": "c20roll"}], draw(st.sampled_from([["RunOnce", {}], ["RunDaily", {}]])), ["WeighSpecified", {"weights": w}], ["Rebalance", {}]]
+    stack = [["RollPositionsAfterDates", {"frame": "rolls"}], ["Probe", {"key": "c20roll"}], draw(st.sampled_from([["RunOnce", {}], ["RunDaily", {}]])), ["WeighSpecified", {"weights": w}], ["Rebalance", {}], ["Probe", {"key": "c20rollend", "run_always": True}]]
     names = sorted(rolls)
     spec = {
         "dates": ds,
@@ -335,7 +341,15 @@ def case_roll(ctx, spec):
         if target is holder.get("root"):
             snaps.append((target.now, {c: ch.position for c, ch in target.children.items()}))
 
+    ends = {}
+
+    def cb_end(algo, target):
+        # the children that exist (and what they hold) when the date's stack is done = what the algo sees on its next call
+        if target is holder.get("root"):
+            ends[target.now] = {c: ch.position for c, ch in target.children.items()}
+
     interp.Probe.registry["c20roll"] = cb
+    interp.Probe.registry["c20rollend"] = cb_end
     base = {k: v for k, v in spec.items() if k != "rolls"}
     try:
         b = interp.mk_backtest(bt, base)
@@ -347,29 +361,29 @@ def case_roll(ctx, spec):
                 raise Violation("run raised %s: %s" % (type(e).__name__, str(e)[:200]), signature="c20:roll-raises:" + bt_frame_signature(e))
     finally:
         interp.Probe.registry.pop("c20roll", None)
+        interp.Probe.registry.pop("c20rollend", None)
     rolls = spec["rolls"]
     rolled = set()
     prev = {}
     did = False
     for now, pos in snaps:
         exp = dict(prev)
-        for t in sorted(rolls):
+        due = [t for t in sorted(rolls) if t not in rolled and pd.Timestamp(rolls[t]["date"]) <= now and t in prev_children(prev, t) and t != rolls[t]["target"]]
+        # every matured position is converted from what was held before this call (once), sources end flat, conversions add up in the targets
+        for t in due:
+            rolled.add(t)
+            exp[t] = 0.0
+        for t in due:
             r = rolls[t]
-            if t not in rolled and pd.Timestamp(r["date"]) <= now and t in prev_children(prev, t):
-                rolled.add(t)
-                q = prev.get(t, 0.0)
-                exp[r["target"]] = exp.get(r["target"], 0.0) + r["factor"] * q
-                exp[t] = 0.0
-                if q != 0:
-                    did = True
+            q = prev.get(t, 0.0)
+            exp[r["target"]] = exp.get(r["target"], 0.0) + r["factor"] * q
+            if q != 0:
+                did = True
         for c in set(exp) | set(pos):
             if abs(pos.get(c, 0.0) - exp.get(c, 0.0)) > 1e-9 * max(1.0, abs(exp.get(c, 0.0))):
                 raise Violation("after RollPositionsAfterDates on %s: position of %s is %r, expected %r (before: %s, rolls %s)" % (now, c, pos.get(c, 0.0), exp.get(c, 0.0), prev, rolls), signature="c20:roll")
-        # positions may change later in the stack (initial purchase on the first date)
-        end = {c: ch for c, ch in pos.items()}
-        prev = None
-        # positions at the end of this date = at the start of the next one
-        prev = {c: float(b.strategy.children[c].positions.loc[now]) for c in b.strategy.children if now in b.strategy.children[c].positions.index}
+        # what the algo will see on its next call: the children existing at the end of this date's stack
+        prev = dict(ends.get(now, pos))
     return {"nontrivial": did, "labels": ["rolled=%d" % len(rolled)]}
 
 
